@@ -396,6 +396,10 @@ TYPE_ORACLE = {
     "VARCHAR": ("text", None, None, 16777216), "BOOLEAN": ("boolean", None, None, None), "DATE": ("date", None, None, None),
     "TIME": ("time", 0, 9, None), "TIMESTAMP": ("timestamp_ntz", 0, 9, None), "TIMESTAMP_NS": ("timestamp_ntz", 0, 9, None),
     "TIMESTAMP WITH TIME ZONE": ("timestamp_tz", 0, 9, None), "BLOB": ("binary", None, None, 8388608), "JSON": ("variant", None, None, None),
+    # DuckDB's SUM over an integer column (and COUNT_IF) is a 128-bit integer; Snowflake's is NUMBER(38,0)
+    "HUGEINT": ("fixed", 38, 0, None),
+    # HASH(x) is an unsigned 64-bit integer in DuckDB (NUMBER(19,0) in Snowflake), UUID_STRING() a UUID (VARCHAR in Snowflake)
+    "UBIGINT": ("fixed", 38, 0, None), "UUID": ("text", None, None, 16777216),
 }
 
 
